@@ -126,4 +126,77 @@ theorem compareS_eq {s s' : St} (h : Inv s) {v w : Nat} (hv : v < s.n) (hw : w <
   subst h3; subst h4
   exact ⟨rfl, fun u => by rw [S2.abs, S1.abs]⟩
 
+/-- `split`: the token list is the reference split of the value -/
+theorem split_eq {s s' : St} (h : Inv s) {v : Nat} (hv : v < s.n) {seps : List Nat} {skip : Bool}
+    {toks : List (List Byte)} (e : split s v seps skip = some (s', toks)) {c : List Nat}
+    (hc : allSome (absVar s v) = some c) (hz : ∀ x ∈ c, x ≠ 0) :
+    toks = splitOut skip (splitRef seps c) ∧ ∀ w, absVar s' w = absVar s w := by
+  simp only [split, Option.bind_eq_bind, Option.bind_eq_some_iff, Option.pure_def, Option.some.injEq,
+    Prod.mk.injEq] at e
+  obtain ⟨s1, h1, hh, h2, cc, h3, rfl, rfl⟩ := e
+  obtain ⟨E, t⟩ := eff_cview h hv h1
+  have := cstrVar_eq E.inv t (by rw [E.self]; exact hc) hz
+  rw [this] at h2; injection h2 with h2; subst h2
+  rw [content_eq E.inv v, E.self] at h3
+  injection h3 with h3
+  rw [← h3, allSome_eq hc]
+  exact ⟨split_loop_spec _ _ _, E.silent.abs⟩
+
+/-- `find(char)`: the first index holding the char -/
+theorem findC_eq {s : St} (h : Inv s) {v c : Nat} {r : Option Nat} (e : findC s v c = some r) {a : List Nat}
+    (ha : allSome (absVar s v) = some a) : r = a.findIdx? (· == c) := by
+  simp only [findC, contentVal_eq h v, ha, Option.bind_eq_bind, Option.bind_some, Option.pure_def,
+    Option.some.injEq] at e
+  exact e.symm
+
+theorem findLastC_eq {s : St} (h : Inv s) {v c : Nat} {r : Option Nat} (e : findLastC s v c = some r) {a : List Nat}
+    (ha : allSome (absVar s v) = some a) : r = findLastIdx a c := by
+  simp only [findLastC, contentVal_eq h v, ha, Option.bind_eq_bind, Option.bind_some, Option.pure_def,
+    Option.some.injEq] at e
+  exact e.symm
+
+/-- `operator==` decides equality of the values (the variables may share a block or be the same) -/
+theorem equalS_eq {s : St} (h : Inv s) {v w : Nat} {r : Bool} (e : equalS s v w = some r) {a b : List Nat}
+    (ha : allSome (absVar s v) = some a) (hb : allSome (absVar s w) = some b) : (r = true ↔ a = b) := by
+  obtain ⟨dv, hdv⟩ := desc_some h v
+  obtain ⟨dw, hdw⟩ := desc_some h w
+  have lv : dv.len = a.length := by rw [desc_len h hdv, allSome_eq ha, List.length_map]
+  have lw : dw.len = b.length := by rw [desc_len h hdw, allSome_eq hb, List.length_map]
+  simp only [equalS, hdv, hdw, Option.bind_eq_bind, Option.bind_some] at e
+  by_cases c : dv.len = dw.len
+  · have c' : ¬ dv.len ≠ dw.len := fun x => x c
+    rw [if_neg c'] at e
+    simp only [contentVal_eq h, ha, hb, Option.bind_some, Option.pure_def, Option.some.injEq] at e
+    subst e
+    simp
+  · have c' : dv.len ≠ dw.len := c
+    rw [if_pos c'] at e
+    simp only [Option.pure_def, Option.some.injEq] at e
+    subst e
+    constructor
+    · intro x; cases x
+    · intro x; subst x; omega
+
+/-- `startsWith` decides whether the argument's value is a prefix of the value -/
+theorem startsWith_eq {s : St} (h : Inv s) {v w : Nat} {r : Bool} (e : startsWith s v w = some r) {a b : List Nat}
+    (ha : allSome (absVar s v) = some a) (hb : allSome (absVar s w) = some b) : (r = true ↔ b <+: a) := by
+  obtain ⟨dv, hdv⟩ := desc_some h v
+  obtain ⟨dw, hdw⟩ := desc_some h w
+  have lv : dv.len = a.length := by rw [desc_len h hdv, allSome_eq ha, List.length_map]
+  have lw : dw.len = b.length := by rw [desc_len h hdw, allSome_eq hb, List.length_map]
+  simp only [startsWith, hdv, hdw, Option.bind_eq_bind, Option.bind_some] at e
+  by_cases c : dv.len < dw.len
+  · simp only [c, if_true, Option.pure_def, Option.some.injEq] at e
+    subst e
+    constructor
+    · intro x; cases x
+    · intro x; have := x.length_le; omega
+  · simp only [c, if_false] at e
+    rw [rd_prefix h hdv (by omega), allSome_eq ha, ← List.map_take] at e
+    simp only [Option.bind_some, allSome_map, contentVal_eq h, hb, Option.pure_def, Option.some.injEq] at e
+    subst e
+    rw [List.prefix_iff_eq_take, lw]
+    simp only [beq_iff_eq]
+    exact eq_comm
+
 end Nstd.Str
